@@ -9,7 +9,7 @@ VERIF = os.path.dirname(os.path.dirname(os.path.abspath(__file__)))
 
 def main():
     old = {}
-    for fn in ('old_checks.log', 'old_checks_round2.log', 'old_checks_round3.log'):
+    for fn in ('old_checks.log', 'old_checks_round2.log', 'old_checks_round3.log', 'old_checks_round4.log'):
         p = os.path.join(VERIF, 'seeded', fn)
         if not os.path.exists(p):
             continue
@@ -30,7 +30,7 @@ def main():
         r = det.get(meta['property'], {})
         cur = 'caught' if r.get('exit') == 1 else ('MISSED' if r else 'not run')
         o = old.get(name)
-        first = 'caught' if o == 1 else ('missed' if o == 0 else '-')
+        first = 'caught' if o == 1 else ('missed' if o in (0, 2) else '-')
         print('| %s | %s | %s | %s | %s |' % (name, need, first, cur, ', '.join(c.split(':')[-1] for c in r.get('clauses', [])[:3])))
 
 
